@@ -45,7 +45,7 @@ type params struct {
 
 func tierParams(thorough bool) params {
 	if thorough {
-		return params{thorough: true, maxSeedFile: 120000, seedsPerPkg: 24, shortLen: 2400, devSeeds: 8, devPrefix: 2400, bigObjDevMax: 800,
+		return params{thorough: true, maxSeedFile: 120000, seedsPerPkg: 24, shortLen: 2000, devSeeds: 6, devPrefix: 2000, bigObjDevMax: 800,
 			garbageSeeds: 4, hashPrefix: 2000, maxOut: 4 << 20, maxPix: 2 << 20, maxWork: 64 << 20}
 	}
 	return params{maxSeedFile: 4100, seedsPerPkg: 6, shortLen: 330, devSeeds: 2, devPrefix: 200, bigObjDevMax: 64,
@@ -719,9 +719,9 @@ func (w *worker) report(ctx *runCtx, p *pkgPlan, in *input, data []byte, shape w
 	if in.Family && shape.PixFmt != 0 {
 		class += " " + strings.TrimPrefix(shape.Name, "one-shot/") // e.g. "enumerated-family dst=RGBA_NONPREMUL"
 	}
-	key := p.name + "|" + dim + "|" + class
-	if in.Pos >= 0 {
-		key = p.name + "|" + dim
+	key := p.name + "|" + dim // one report per package and dimension ...
+	if in.Family && shape.PixFmt != 0 {
+		key += "|" + shape.Name // ... and destination pixel format, for the swizzle families
 	}
 	if _, dup := ctx.reported.LoadOrStore(key, struct{}{}); dup {
 		return
@@ -1379,7 +1379,8 @@ func hasherSeeds(name string, pr params) []wd.Seed {
 		lens = append(lens, n)
 	}
 	// lengths around the block sizes of the SIMD loops (adler32: 5552-byte chunks; crc: 64/128-byte blocks)
-	for _, n := range []int{4095, 4096, 4097, 5551, 5552, 5553, 5584, 11104, 11105, 65535 + 31, 70001} {
+	// (adler32 sse42: outer chunks of 5536 bytes, inner 32-byte steps; portable: 5552)
+	for _, n := range []int{4095, 4096, 4097, 5535, 5536, 5537, 5551, 5552, 5553, 5567, 5568, 5569, 5584, 11071, 11072, 11073, 11104, 11105, 65535 + 31, 70001} {
 		lens = append(lens, n)
 	}
 	pay := wd.Payload(70001)
